@@ -2,7 +2,7 @@
 Property C03 — artifact rules are enforced exactly as the in-toto rule (queue) algorithm prescribes.
 
 ONLY property theorems live here.  Model: InToto/Model/Rules.lean (mirror of UnpackRule,
-verifyMatchRule, VerifyArtifacts incl. the in-place clean-up of link maps).  Spec:
+verifyMatchRule, VerifyArtifacts incl. the clean-up of artifact names on copies of the link maps).  Spec:
 InToto/Spec/Rules.lean (pointwise `consumes` / `fails`, queue algorithm `run`).
 All theorems hold for every glob matcher `E.glob`, in particular for the modelled one.
 -/
@@ -174,10 +174,10 @@ theorem item_order_irrelevant (glob : Str → Str → Bool) (items₁ items₂ :
 
 /-! ### ALL artifact names (no `CleanCtx` hypothesis; findings F20, F21 repaired)
 
-`VerifyArtifacts` cleans the two artifact maps of an item in place before it computes the sets of
-created / deleted / modified artifacts, and `verifyMatchRule` cleans the source and the destination
-map before it reads them (`Rules.cleanArts`: every entry moves to the clean form of its name, in
-sorted order of the recorded names).  So on ARBITRARY links the verdict is the verdict on the links
+`VerifyArtifacts` works on cleaned copies of the two artifact maps of an item when it computes the
+sets of created / deleted / modified artifacts, and `verifyMatchRule` on cleaned copies of the source
+and the destination map (`Rules.cleanArts`: every entry is filed under the clean form of its name, in
+sorted order of the recorded names; the links themselves are never written to, C10).  So on ARBITRARY links the verdict is the verdict on the links
 with every artifact map cleaned up front, and on those the specification applies. -/
 
 /-- `path.Clean` is idempotent (model of Go's `path.Clean`, tied to the code by op `clean`) -/
